@@ -43,15 +43,16 @@ where
         let target = dataset.as_single_targets();
 
         let (intercept, y) = compute_intercept(self.with_intercept(), target);
-        let (hyperplane, duality_gap, n_steps) = coordinate_descent(
+        let (hyperplane, intercept_shift, duality_gap, n_steps) = coordinate_descent_intercept(
             dataset.records().view(),
             y.view(),
+            self.with_intercept(),
             self.tolerance(),
             self.max_iterations(),
             self.l1_ratio(),
             self.penalty(),
         );
-        let intercept = intercept.into_scalar();
+        let intercept = intercept.into_scalar() + intercept_shift;
 
         let y_est = dataset.records().dot(&hyperplane) + intercept;
 
@@ -90,14 +91,16 @@ where
         let targets = dataset.targets().as_multi_targets();
         let (intercept, y) = compute_intercept(self.with_intercept(), targets);
 
-        let (hyperplane, duality_gap, n_steps) = block_coordinate_descent(
+        let (hyperplane, intercept_shift, duality_gap, n_steps) = block_coordinate_descent_intercept(
             dataset.records().view(),
             y.view(),
+            self.with_intercept(),
             self.tolerance(),
             self.max_iterations(),
             self.l1_ratio(),
             self.penalty(),
         );
+        let intercept = intercept + intercept_shift;
 
         let y_est = dataset.records().dot(&hyperplane) + &intercept;
 
@@ -262,6 +265,7 @@ impl<F: Float> MultiTaskElasticNet<F> {
     }
 }
 
+#[cfg(test)]
 fn coordinate_descent<'a, F: Float>(
     x: ArrayView2<'a, F>,
     y: ArrayView1<'a, F>,
@@ -270,10 +274,28 @@ fn coordinate_descent<'a, F: Float>(
     l1_ratio: F,
     penalty: F,
 ) -> (Array1<F>, F, u32) {
+    let (w, _, gap, n_steps) =
+        coordinate_descent_intercept(x, y, false, tol, max_steps, l1_ratio, penalty);
+    (w, gap, n_steps)
+}
+
+/// Coordinate descent on the coefficients and, if `fit_intercept` is set, on an unpenalized
+/// intercept. `y` is expected to be centered already, the returned intercept is the shift
+/// relative to that centering (non-zero only if the columns of `x` are not centered).
+fn coordinate_descent_intercept<'a, F: Float>(
+    x: ArrayView2<'a, F>,
+    y: ArrayView1<'a, F>,
+    fit_intercept: bool,
+    tol: F,
+    max_steps: u32,
+    l1_ratio: F,
+    penalty: F,
+) -> (Array1<F>, F, F, u32) {
     let n_samples = F::cast(x.nrows());
     let n_features = x.ncols();
     // the parameters of the model
     let mut w = Array1::<F>::zeros(n_features);
+    let mut intercept = F::zero();
     // the residuals: `y - X*w` (since w=0, this is just `y` for now),
     // the residuals are updated during the algorithm as the parameters change
     let mut r = y.to_owned();
@@ -304,6 +326,13 @@ fn coordinate_descent<'a, F: Float>(
             d_w_max = F::max(d_w_max, d_w_j);
             w_max = F::max(w_max, w[j].abs());
         }
+        if fit_intercept {
+            // the optimal intercept for the current coefficients is the mean of the residuals
+            let r_mean = r.sum() / n_samples;
+            r.mapv_inplace(|r_i| r_i - r_mean);
+            intercept += r_mean;
+            d_w_max = F::max(d_w_max, r_mean.abs());
+        }
         n_steps += 1;
 
         if n_steps == max_steps - 1 || w_max == F::zero() || d_w_max / w_max < d_w_tol {
@@ -315,9 +344,10 @@ fn coordinate_descent<'a, F: Float>(
             }
         }
     }
-    (w, gap, n_steps)
+    (w, intercept, gap, n_steps)
 }
 
+#[cfg(test)]
 fn block_coordinate_descent<'a, F: Float>(
     x: ArrayView2<'a, F>,
     y: ArrayView2<'a, F>,
@@ -326,11 +356,27 @@ fn block_coordinate_descent<'a, F: Float>(
     l1_ratio: F,
     penalty: F,
 ) -> (Array2<F>, F, u32) {
+    let (w, _, gap, n_steps) =
+        block_coordinate_descent_intercept(x, y, false, tol, max_steps, l1_ratio, penalty);
+    (w, gap, n_steps)
+}
+
+/// Multi-task version of [`coordinate_descent_intercept`], with one intercept per task.
+fn block_coordinate_descent_intercept<'a, F: Float>(
+    x: ArrayView2<'a, F>,
+    y: ArrayView2<'a, F>,
+    fit_intercept: bool,
+    tol: F,
+    max_steps: u32,
+    l1_ratio: F,
+    penalty: F,
+) -> (Array2<F>, Array1<F>, F, u32) {
     let n_samples = F::cast(x.nrows());
     let n_features = x.ncols();
     let n_tasks = y.ncols();
     // the parameters of the model
     let mut w = Array2::<F>::zeros((n_features, n_tasks));
+    let mut intercept = Array1::<F>::zeros(n_tasks);
     // the residuals: `Y - XW` (since W=0, this is just `Y` for now),
     // the residuals are updated during the algorithm as the parameters change
     let mut r = y.to_owned();
@@ -379,6 +425,13 @@ fn block_coordinate_descent<'a, F: Float>(
             d_w_max = F::max(d_w_max, d_w_j);
             w_max = F::max(w_max, norm_w_j);
         }
+        if fit_intercept {
+            // the optimal intercepts for the current coefficients are the means of the residuals
+            let r_mean = r.sum_axis(Axis(0)) / n_samples;
+            r -= &r_mean;
+            intercept += &r_mean;
+            d_w_max = F::max(d_w_max, r_mean.dot(&r_mean).sqrt());
+        }
         n_steps += 1;
 
         if n_steps == max_steps - 1 || w_max == F::zero() || d_w_max / w_max < d_w_tol {
@@ -391,7 +444,7 @@ fn block_coordinate_descent<'a, F: Float>(
         }
     }
 
-    (w, gap, n_steps)
+    (w, intercept, gap, n_steps)
 }
 
 // Algorithm based off of this post: https://math.stackexchange.com/questions/2045579/deriving-block-soft-threshold-from-l-2-norm-prox-operator
